@@ -40,7 +40,7 @@ fn build_diff_ok(d: &[&'static str], detached: bool, encrypted: bool) -> bool {
 
 pub fn run(a: &Args) -> ShardOut {
     let mut total = ShardOut::default();
-    let (histories, rounds) = if a.thorough { (30, 25) } else { (6, 14) };
+    let (histories, rounds) = if a.thorough { (60, 25) } else { (14, 14) };
     for h in 0..histories {
         if let Some(only) = super::only_history() {
             if only != h {
